@@ -216,6 +216,67 @@ def Info.size (i : Info) : Nat :=
   (i.ids.map Identity.size).sum + (i.feats.map strSize).sum + (i.forms.map Form.size).sum
 
 
+/-! ## Calls on a value the caller keeps (round E)
+
+`AppendHash` has a value receiver, but the slices inside `disco.Info` (and inside its
+`form.Data` values) are shared with the caller: an implementation that sorts one of them
+*where it is* changes what the caller - and every later or concurrent call - sees.
+`InPlace` says which levels an implementation orders in place; `Info.after p i` is the
+caller's value after one call; `calls p n i` the strings hashed by `n` successive calls on the
+same value.  `implInPlace` is what the code does (regenerated fact `argumentWrites`, a probe:
+the real `Hash` on unsorted two-item values, the caller's value compared before and after). -/
+
+structure InPlace where
+  ids : Bool
+  feats : Bool
+  forms : Bool
+  fields : Bool
+  values : Bool
+  deriving DecidableEq, Repr
+
+/-- nothing is ordered in place: the call is a pure function of the value -/
+def InPlace.pure : InPlace := ⟨false, false, false, false, false⟩
+
+def Field.after (p : InPlace) (f : Field) : Field :=
+  if p.values then ⟨f.var, sortStrings f.values⟩ else f
+
+def Form.after (p : InPlace) (F : Form) : Form :=
+  ⟨if p.fields then (F.fields.map (Field.after p)).mergeSort fieldLe else F.fields.map (Field.after p)⟩
+
+def Info.after (p : InPlace) (i : Info) : Info :=
+  ⟨if p.ids then i.ids.mergeSort idLe else i.ids,
+   if p.feats then sortStrings i.feats else i.feats,
+   if p.forms then (i.forms.map (Form.after p)).mergeSort formLe else i.forms.map (Form.after p)⟩
+
+/-- the code (after `fix: disco: Info.Hash sorted the caller's identities and features in
+place`): every level is copied before it is sorted -/
+def implInPlace : InPlace := InPlace.pure
+
+/-- the strings hashed by `n` successive calls on one value kept by the caller -/
+def calls (p : InPlace) : Nat → Info → List Bytes
+  | 0, _ => []
+  | n + 1, i => verImpl i :: calls p n (i.after p)
+
+/-- the caller's value after `n` calls -/
+def afterCalls (p : InPlace) : Nat → Info → Info
+  | 0, i => i
+  | n + 1, i => afterCalls p n (i.after p)
+
+/-- the probe values of the fact `argumentWrites`, one per level, each unsorted at that level
+only: two identities, two features, two forms, two fields of one form, two values of one
+field, two values of a FORM_TYPE field -/
+def writeProbes : List Info :=
+  [⟨[⟨[0x62], [], [], []⟩, ⟨[0x61], [], [], []⟩], [], []⟩,
+   ⟨[], [[0x62], [0x61]], []⟩,
+   ⟨[], [], [⟨[⟨formTypeVar, [[0x62]]⟩]⟩, ⟨[⟨formTypeVar, [[0x61]]⟩]⟩]⟩,
+   ⟨[], [], [⟨[⟨[0x62], [[0x31]]⟩, ⟨[0x61], [[0x31]]⟩]⟩]⟩,
+   ⟨[], [], [⟨[⟨formTypeVar, [[0x74]]⟩, ⟨[0x76], [[0x62], [0x61]]⟩]⟩]⟩,
+   ⟨[], [], [⟨[⟨formTypeVar, [[0x62], [0x61]]⟩]⟩]⟩]
+
+/-- which probe values an implementation with in-place behaviour `p` leaves changed -/
+def writeTable (p : InPlace) : List Bool := writeProbes.map fun i => decide (i.after p ≠ i)
+
+
 /-! ## Probe domains (the regenerated facts of `Generated/C20.lean` are tables over them) -/
 
 /-- for every ordered pair of distinct positions `(i, j)` of `u`: does `le u[i] u[j]` hold, i.e.
